@@ -127,3 +127,20 @@ def audit(pid):
         if res['ok']:
             json.dump(res, open(cache, 'w'))
         return res
+
+
+def recheck(pid):
+    """Thorough tier: re-check the compiled property module and everything it imports with `leanchecker`, the toolchain's
+    independent re-checker of .olean files.  Returns (ok, text); cached by the digest of the Lean sources."""
+    with Lock('lake'):
+        digest = sources_digest()
+        cache = os.path.join(paths.SCRATCH, f'leanchecker-{pid}-{digest}.json')
+        if os.path.exists(cache):
+            return tuple(json.load(open(cache)))
+        t0 = time.time()
+        p = subprocess.run(['lake', 'env', 'leanchecker', f'CM.Props.{pid}'], cwd=paths.LEAN, stdout=subprocess.PIPE,
+                           stderr=subprocess.STDOUT, timeout=3000)
+        out = (p.returncode == 0, f'leanchecker CM.Props.{pid}: exit {p.returncode} in {round(time.time() - t0, 1)} s ' + p.stdout.decode()[-500:])
+        if out[0]:
+            json.dump(list(out), open(cache, 'w'))
+        return out
